@@ -144,6 +144,11 @@ Theorem C05_decisions_as_transcribed :
      [x72; x65; x74; x75; x72; x6e; x20; x66; x61; x6c; x73; x65; x2c; x22; x22] (* return false,"" *);
      [x69; x66; x20; x21; x72; x65; x73; x2e; x41; x75; x74; x68; x65; x6e; x74; x69; x63; x61; x74; x65; x64] (* if !res.Authenticated *);
      [x72; x65; x74; x75; x72; x6e; x20; x66; x61; x6c; x73; x65; x2c; x22; x22] (* return false,"" *);
-     [x72; x65; x74; x75; x72; x6e; x20; x72; x65; x73; x2e; x41; x75; x74; x68; x65; x6e; x74; x69; x63; x61; x74; x65; x64; x2c; x72; x65; x73; x2e; x55; x73; x65; x72; x6e; x61; x6d; x65] (* return res.Authenticated,res.Username *)].
+     [x72; x65; x74; x75; x72; x6e; x20; x72; x65; x73; x2e; x41; x75; x74; x68; x65; x6e; x74; x69; x63; x61; x74; x65; x64; x2c; x72; x65; x73; x2e; x55; x73; x65; x72; x6e; x61; x6d; x65] (* return res.Authenticated,res.Username *)] /\
+  DECISIONS_NTLMAuth =
+    [[x72; x65; x74; x75; x72; x6e; x20; x3c; x2a; x61; x73; x74; x2e; x46; x75; x6e; x63; x4c; x69; x74; x3e] (* return <*ast.FuncLit> *);
+     [x69; x66; x20; x65; x72; x72; x21; x3d; x6e; x69; x6c] (* if err!=nil *);
+     [x72; x65; x74; x75; x72; x6e] (* return *);
+     [x69; x66; x20; x61; x75; x74; x68; x65; x6e; x74; x69; x63; x61; x74; x65; x64] (* if authenticated *)].
 Proof. vm_compute. repeat split; reflexivity. Qed.
 Print Assumptions C05_decisions_as_transcribed.
